@@ -43,17 +43,23 @@ def run(R, env):
             saves = state_save_ops(prog, hctx, env, crate)
             R.floor("C12.R1", crate + ": STATE.save in TransferOwnership", len(saves), 1)
             for op in saves:
-                alts = struct_deltas(op["args"][2])
+                alts = shared.write_value_alternatives(prog, op, "state") or []
                 good = bool(alts)
                 why = ""
                 for base, d in alts:
-                    if not is_load(prog, base, "state", crate) or set(d) != {("pending_owner",), ("owner_transfer_min_time",)}:
+                    d = shared.effective_delta(prog, base, d, "state", crate)
+                    if d is None or set(d) != {("pending_owner",), ("owner_transfer_min_time",)}:
                         good = False
-                        why = "fields written: %s" % sorted(".".join(p) for p in d)
+                        why = "fields written: %s" % (sorted(".".join(p) for p in d) if d is not None else "not the loaded state")
                         continue
                     po = d[("pending_owner",)]
                     mt = fold(d[("owner_transfer_min_time",)])
-                    po_ok = po[0] == "agg" and po[2] == "Some" and po[3][0][2][0] == "payload" and po[3][0][2][1][0] == "call" and po[3][0][2][1][1].endswith("Api::addr_validate") and (po[3][0][2][1][2][1][0] == "param" or (po[3][0][2][1][2][1][0] == "field" and po[3][0][2][1][2][1][2] == "new_owner"))
+                    po_ok = False
+                    if po[0] == "agg" and po[2] == "Some":
+                        pv = shared.unwrap_payload(po[3][0][2])
+                        if po[3][0][2][0] == "payload" and pv[0] == "call" and pv[1].endswith("Api::addr_validate") and len(pv[2]) == 2:
+                            a_ = pv[2][1]
+                            po_ok = a_[0] == "param" or (a_[0] == "field" and a_[2] == "new_owner")
                     mt_ok = False
                     if mt[0] == "agg" and mt[2] == "Some":
                         v = mt[3][0][2]
@@ -88,9 +94,9 @@ def run(R, env):
             R.floor("C12.R2", crate + ": STATE.save in Revoke", len(saves), 1)
             none = lambda t: t[0] == "agg" and t[2] == "None"
             for op in saves:
-                alts = struct_deltas(op["args"][2])
-                good = bool(alts) and all(is_load(prog, b, "state", crate) and set(d) == {("pending_owner",), ("owner_transfer_min_time",)} and none(d[("pending_owner",)]) and none(d[("owner_transfer_min_time",)]) for b, d in alts)
-                R.ob("C12.R2", crate + ":delta", good, "revocation stores %s, expected both fields := None" % fmt(op["args"][2])[:200], loc=op["loc"], fn=hk)
+                alts = [shared.effective_delta(prog, b, d, "state", crate) for b, d in shared.write_value_alternatives(prog, op, "state") or []]
+                good = bool(alts) and all(d is not None and set(d) == {("pending_owner",), ("owner_transfer_min_time",)} and none(d[("pending_owner",)]) and none(d[("owner_transfer_min_time",)]) for d in alts)
+                R.ob("C12.R2", crate + ":delta", good, "revocation stores %s, expected both fields := None" % fmt(op.get("value") or op["args"][2])[:200], loc=op["loc"], fn=hk)
                 R.ob("C12.R2", crate + ":save-on-every-success-path", must_pass(hctx, op["root_bb"]), "a success exit is reachable without the state save", loc=op["loc"], fn=hk)
         # ---- R3
         arm = table.get("AcceptOwnership")
@@ -114,9 +120,9 @@ def run(R, env):
             saves = state_save_ops(prog, hctx, env, crate)
             R.floor("C12.R3", crate + ": STATE.save in Accept", len(saves), 1)
             for op in saves:
-                alts = struct_deltas(op["args"][2])
-                good = bool(alts) and all(is_load(prog, b, "state", crate) and set(d) == {("pending_owner",)} and d[("pending_owner",)][0] == "agg" and d[("pending_owner",)][2] == "None" for b, d in alts)
-                R.ob("C12.R3", crate + ":consumes-nomination", good, "acceptance stores %s, expected loaded state with only pending_owner := None" % fmt(op["args"][2])[:200], loc=op["loc"], fn=hk)
+                alts = [shared.effective_delta(prog, b, d, "state", crate) for b, d in shared.write_value_alternatives(prog, op, "state") or []]
+                good = bool(alts) and all(d is not None and set(d) == {("pending_owner",)} and d[("pending_owner",)][0] == "agg" and d[("pending_owner",)][2] == "None" for d in alts)
+                R.ob("C12.R3", crate + ":consumes-nomination", good, "acceptance stores %s, expected loaded state with only pending_owner := None" % fmt(op.get("value") or op["args"][2])[:200], loc=op["loc"], fn=hk)
                 R.ob("C12.R3", crate + ":consume-on-every-success-path", must_pass(hctx, op["root_bb"]), "acceptance can succeed without clearing the nominee", loc=op["loc"], fn=hk)
             # no nominee -> no success
             po_pred = lambda t: loaded_field(prog, t, "state", ["pending_owner"], crate)
